@@ -25,20 +25,20 @@ If(c, reason) == IF c THEN {reason} ELSE {}
 
 (* relations between two observed values a and b (sets).  The reason names the call
    whose returned value the specification cannot explain: "<call>/<what>" *)
-RelReasons(a, b, k) ==
-  If(a = b /\ k[1] = 0, "operator==/false-for-equal-sets")
-  \cup If(a # b /\ k[1] = 1, "operator==/true-for-different-sets")
-  \cup If(k[2] = k[1], "operator!=/not-the-negation-of-operator==")
-  \cup If(a = b /\ k[3] = 0, "hash/differs-for-equal-sets")
-  \cup If(a = b /\ k[4] = 0, "std_hash/differs-for-equal-sets")
-  \cup If((k[5] = 1) # (a \subseteq b), "is_subset_eq/wrong-result")
-  \cup If((k[6] = 1) # (b \subseteq a), "is_subset_eq/wrong-result")
+RelReasons(at, a, b, k) ==
+  If(a = b /\ k[1] = 0, "operator==/false-for-equal-sets@" \o at)
+  \cup If(a # b /\ k[1] = 1, "operator==/true-for-different-sets@" \o at)
+  \cup If(k[2] = k[1], "operator!=/not-the-negation-of-operator==@" \o at)
+  \cup If(a = b /\ k[3] = 0, "hash/differs-for-equal-sets@" \o at)
+  \cup If(a = b /\ k[4] = 0, "std_hash/differs-for-equal-sets@" \o at)
+  \cup If((k[5] = 1) # (a \subseteq b), "is_subset_eq/wrong-result@" \o at)
+  \cup If((k[6] = 1) # (b \subseteq a), "is_subset_eq/wrong-result@" \o at)
 
-(* an observed result against the value the specification defines, plus its
-   relations with the canonical twin *)
-VReasons(tag, v, expected) ==
-  If(S(v[1]) # expected, tag \o "/contents")
-  \cup RelReasons(S(v[1]), S(v[2]), v[3])
+(* an observed result (field `at` of the record, produced by operator `tag`) against
+   the value the specification defines, plus its relations with the canonical twin *)
+VReasons(tag, at, v, expected) ==
+  If(S(v[1]) # expected, tag \o "/contents@" \o at)
+  \cup RelReasons(at, S(v[1]), S(v[2]), v[3])
 
 InRange(n, xs) == \A i \in 1..Len(xs) : xs[i] \in 0..(n - 1)
 
@@ -67,17 +67,17 @@ TreeOK(n, t) ==
 PairReasons(r) ==
   LET a == S(r.a)
       b == S(r.b)
-  IN VReasons("or", r.or, B(r.n)!Or(a, b))
-     \cup VReasons("and", r.and, B(r.n)!And(a, b))
-     \cup VReasons("xor", r.xor, B(r.n)!Xor(a, b))
-     \cup VReasons("or_assign", r.ora, B(r.n)!Or(a, b))
-     \cup VReasons("and_assign", r.anda, B(r.n)!And(a, b))
-     \cup VReasons("xor_assign", r.xora, B(r.n)!Xor(a, b))
-     \cup RelReasons(a, b, r.rel)
+  IN VReasons("or", "or", r.or, B(r.n)!Or(a, b))
+     \cup VReasons("and", "and", r.and, B(r.n)!And(a, b))
+     \cup VReasons("xor", "xor", r.xor, B(r.n)!Xor(a, b))
+     \cup VReasons("or_assign", "ora", r.ora, B(r.n)!Or(a, b))
+     \cup VReasons("and_assign", "anda", r.anda, B(r.n)!And(a, b))
+     \cup VReasons("xor_assign", "xora", r.xora, B(r.n)!Xor(a, b))
+     \cup RelReasons("rel", a, b, r.rel)
      \cup If(S(r.aa) # a, "operand/left-operand-of-value-operator-modified")
      \cup If(S(r.ba) # b, "operand/right-operand-modified")
 
-RelRecReasons(r) == RelReasons(S(r.a), S(r.b), r.rel)
+RelRecReasons(r) == RelReasons("rel", S(r.a), S(r.b), r.rel)
 
 SingleReasons(r) ==
   LET a == S(r.a) IN
@@ -85,13 +85,13 @@ SingleReasons(r) ==
   \cup (IF TreeOK(r.n, r.t) THEN If(a # Eval(r.n, r.t), r.t.o \o "/contents") ELSE {})
   \cup If(S(r.ai) # a, "index/differs-from-get")
   \cup If(S(r.ae) # a, "and_elem/differs-from-get")
-  \cup VReasons(r.t.o, r.can, a)
-  \cup VReasons("not", r.not, B(r.n)!Not(a))
-  \cup VReasons("not", r.notnot, a)
-  \cup VReasons("or_assign", r.sora, a)
-  \cup VReasons("and_assign", r.sanda, a)
-  \cup VReasons("xor_assign", r.sxora, {})
-  \cup RelReasons(a, a, r.rel)
+  \cup VReasons(r.t.o, "can", r.can, a)
+  \cup VReasons("not", "not", r.not, B(r.n)!Not(a))
+  \cup VReasons("not", "notnot", r.notnot, a)
+  \cup VReasons("or_assign", "sora", r.sora, a)
+  \cup VReasons("and_assign", "sanda", r.sanda, a)
+  \cup VReasons("xor_assign", "sxora", r.sxora, {})
+  \cup RelReasons("rel", a, a, r.rel)
   \cup If(S(r.aa) # a, "operand/left-operand-of-value-operator-modified")
 
 ElemReasons(r) ==
@@ -100,12 +100,12 @@ ElemReasons(r) ==
       e == r.e
       m == IF B(n)!Get(a, e) THEN 1 ELSE 0
   IN If(e \notin 0..(n - 1), "HARNESS-PRECONDITION")
-     \cup VReasons("set", r.set1, B(n)!SetBit(a, e, TRUE))
-     \cup VReasons("set", r.set0, B(n)!SetBit(a, e, FALSE))
-     \cup VReasons("index_assign", r.idx1, B(n)!SetBit(a, e, TRUE))
-     \cup VReasons("index_assign", r.idx0, B(n)!SetBit(a, e, FALSE))
-     \cup VReasons("or_elem", r.ore, B(n)!SetBit(a, e, TRUE))
-     \cup VReasons("or_assign_elem", r.orae, B(n)!SetBit(a, e, TRUE))
+     \cup VReasons("set", "set1", r.set1, B(n)!SetBit(a, e, TRUE))
+     \cup VReasons("set", "set0", r.set0, B(n)!SetBit(a, e, FALSE))
+     \cup VReasons("index_assign", "idx1", r.idx1, B(n)!SetBit(a, e, TRUE))
+     \cup VReasons("index_assign", "idx0", r.idx0, B(n)!SetBit(a, e, FALSE))
+     \cup VReasons("or_elem", "ore", r.ore, B(n)!SetBit(a, e, TRUE))
+     \cup VReasons("or_assign_elem", "orae", r.orae, B(n)!SetBit(a, e, TRUE))
      \cup If(r.g # m, "get/result")
      \cup If(r.ix # m, "index/result")
      \cup If(r.ixm # m, "index/result")
@@ -114,17 +114,18 @@ ElemReasons(r) ==
 
 BuildReasons(r) ==
   IF ~InRange(r.n, r.s) THEN {"HARNESS-PRECONDITION"}
-  ELSE VReasons(r.how, r.r, B(r.n)!FromList(r.s))
+  ELSE VReasons(r.how, "r", r.r, B(r.n)!FromList(r.s))
 
 TreeReasons(r) ==
   IF ~(TreeOK(r.n, r.t) /\ TreeOK(r.n, r.u)) THEN {"HARNESS-PRECONDITION"}
   ELSE LET et == Eval(r.n, r.t)
            eu == Eval(r.n, r.u)
-       IN VReasons(r.t.o, r.r, et) \cup VReasons(r.u.o, r.q, eu)
-          \cup RelReasons(S(r.r[1]), S(r.q[1]), r.rel)
+       IN VReasons(r.t.o, "r", r.r, et) \cup VReasons(r.u.o, "q", r.q, eu)
+          \cup RelReasons("rel", S(r.r[1]), S(r.q[1]), r.rel)
 
 (* histories of the register machine: ops[j] applied to the state logged at j-1
    (validation continues from the LOGGED state, so one defect does not hide the rest) *)
+At(j, a) == "step-" \o ToString(j) \o ":" \o a.op
 RECURSIVE HistFold(_, _, _, _, _)
 HistFold(r, j, px, py, acc) ==
   IF j > Len(r.ops) THEN acc
@@ -135,15 +136,15 @@ HistFold(r, j, px, py, acc) ==
        IN IF ~B(r.n)!Pre(a) THEN acc \cup {"HARNESS-PRECONDITION"}
           ELSE LET e == B(r.n)!Eff(px, py, a) IN
                HistFold(r, j + 1, lx, ly,
-                 acc \cup If(lx # e.x, a.op \o "/contents")
-                     \cup If(ly # e.y, a.op \o "/other-register-contents")
-                     \cup If(S(o.xi) # lx, "index/differs-from-get")
-                     \cup If(S(o.rv) # e.x, a.op \o "/returned-value")
-                     \cup RelReasons(lx, ly, o.k))
+                 acc \cup If(lx # e.x, a.op \o "/contents@" \o At(j, a))
+                     \cup If(ly # e.y, a.op \o "/other-register-contents@" \o At(j, a))
+                     \cup If(S(o.xi) # lx, "index/differs-from-get@" \o At(j, a))
+                     \cup If(S(o.rv) # e.x, a.op \o "/returned-value@" \o At(j, a))
+                     \cup RelReasons(At(j, a), lx, ly, o.k))
 
 HistReasons(r) ==
   IF Len(r.obs) # Len(r.ops) THEN {"HARNESS-PRECONDITION"}
-  ELSE HistFold(r, 1, {}, {}, RelReasons(S(r.o0.x), S(r.o0.y), r.o0.k)
+  ELSE HistFold(r, 1, {}, {}, RelReasons("step-0:null", S(r.o0.x), S(r.o0.y), r.o0.k)
                               \cup If(S(r.o0.x) # {} \/ S(r.o0.y) # {}, "null/contents"))
 
 BFReasons(r) ==
